@@ -17,7 +17,8 @@ from vpv import *
 # formatted at runtime" is how Kani reports a panic!() whose message is formatted at run time -- a REAL panic, never ignorable.
 IGNORABLE = re.compile(r"NaN on |arithmetic overflow on floating-point")
 # classes that mean "the bound/tool was insufficient", never a violation
-UNDECIDABLE = re.compile(r"unwinding assertion|is not currently supported by Kani|unsupported|recursion unwinding")
+UNDECIDABLE = re.compile(r"unwinding assertion|is not currently supported by Kani|unsupported|recursion unwinding|"
+                         r"^dereference failure|^pointer |^assertion$")  # pointer-level checks in safe code = model artefact (e.g. TLS)
 
 CELL_RE = re.compile(r'vpv_cell!\(\s*((?:#\[[^\]]*\]\s*)*)(\w+)\s*,\s*"([^"]+)"\s*,\s*\(([^)]*)\)', re.S)
 
@@ -292,8 +293,13 @@ def run_unit(unit, tier="quick", dev=False, only=None):
                     nr = native_replay(scratch, unit, o.cell["file"], o.cell["module"], o.cell, vals)
                     payload["native_replay"] = nr
                     o.replay_reproduced = nr["result"].startswith("violated")
-                    if not o.replay_reproduced:
-                        o.violation_suffix = " native-replay=" + ("not-reproduced" if nr["result"].startswith("holds") else "unavailable")
+                    if nr["result"].startswith("holds"):
+                        # the verifier's counterexample does NOT fail on the real code: model artefact (nondeterministic libm model,
+                        # TLS, ...) -> undecided, never an alarm
+                        o.status = UNDECIDED
+                        o.detail = "Kani counterexample did not reproduce on the real code (native replay: holds) -> undecided. " + o.detail
+                    elif not o.replay_reproduced:
+                        o.violation_suffix = " native-replay=unavailable"
                 elif o in new[unit.get("max_replays", 8):]:
                     payload["counterexample"] = None
                     payload["note"] = "counterexample extraction was limited to the first %d refuted obligations of this run; re-run with --only to extract this one" % unit.get("max_replays", 8)
